@@ -316,6 +316,23 @@ def t_sparse_index():
     if len(comps) != 1 or ast.unparse(comps[0].value) != 'x' or ast.unparse(comps[0].generators[0].target) != '(i, x)':
         raise Unsupported('from_simple_diagonals comprehension')
     out += f"Definition diag_key (i : Z) : Z * Z := {texpr(comps[0].key)}.\n"
+    # sparsity safeguards: every 'abs(...) < c' test in the sparse-Jacobian and derivative-accumulator classes; the model idealises them as 'is zero',
+    # which is only defensible for thresholds at rounding-error level: the exponents k of the constants 1E-k are exported and must all be >= 14
+    exps = []
+    for rel in ('classes/sparse_jacobians.py', 'blocks/support/simple_displacement.py'):
+        for n in ast.walk(module(rel)):
+            if isinstance(n, ast.Compare) and len(n.ops) == 1 and isinstance(n.ops[0], (ast.Lt, ast.LtE)) and isinstance(n.left, ast.Call) and ast.unparse(n.left.func) == 'abs':
+                c = n.comparators[0]
+                if not (isinstance(c, ast.Constant) and isinstance(c.value, float) and c.value > 0):
+                    raise Unsupported(f'sparsity threshold {ast.unparse(c)}')
+                import math
+                k = -math.log10(c.value)
+                if abs(k - round(k)) > 1e-9:
+                    raise Unsupported(f'sparsity threshold {c.value} is not a power of ten')
+                exps.append(int(round(k)))
+    if not exps:
+        raise Unsupported('no sparsity thresholds found')
+    out += "\nFrom Coq Require Import List.\nDefinition prune_threshold_exponents : list Z := " + '(' + ' :: '.join(zlit(k) for k in exps) + ' :: nil)' + ".\n"
     return out
 
 
